@@ -79,6 +79,13 @@ theorem C19_report_order_serial (inp : RunInput) (s : Sys) (hr : Reach inp s) :
 theorem C19_report_order_parallel (inp : RunInput) (s : Sys) (hr : PReach inp s) :
     repOrd (exOf inp) false (fun _ => false) s.events = true := (preach_inv19 hr).ord
 
+/-- the same for the OBSERVABLE trace (`Run.trace`: what the harness records for the implementation), with exactly the
+    parameters the driver's monitor `C19_report_order` uses for the serial and the thread runner -/
+theorem C19_report_monitor (inp : RunInput) (s : Sys) (hr : Reach inp s ∨ PReach inp s) :
+    repOrd (exOf inp) false inp.noAct (trace inp s).reverse = true := by
+  have h : Inv19 inp s := hr.elim reach_inv19 preach_inv19
+  rw [trace_reverse]; exact repOrd_filter inp _ _ _ h.ord
+
 /-- `execute_task t` is present iff the actions of `t` were started (serial and thread runner: the report is made by
     the thread that executes), as many times (at most once, `C02_at_most_once`) -/
 theorem C19_execute_iff_started (inp : RunInput) (hp : inp.runner ≠ .process) (s : Sys)
@@ -101,11 +108,11 @@ theorem C19_execute_precedes_report (inp : RunInput) (hp : inp.runner ≠ .proce
   rw [exOf_true hp] at ho
   constructor
   · intro he; rw [he] at ho
-    have := repOrd_split ho
+    have := repOrd_at ho
     simp only [repOK, firstFinal, Bool.and_eq_true, Bool.not_eq_true'] at this
     exact ⟨this.1.1, this.1.2⟩
   · intro he; rw [he] at ho
-    have := repOrd_split ho
+    have := repOrd_at ho
     simp only [repOK, firstFinal, Bool.and_eq_true, Bool.not_eq_true', Bool.false_or, Bool.not_true] at this
     exact ⟨this.2, this.1.2, this.1.1.2⟩
 
@@ -118,6 +125,37 @@ theorem C19_forwarded_execute_before_result (tasksOf : Nat → List Name) (q : L
     (hq : q = pre ++ Msg.res n :: post) : Msg.rep n ∈ pre := by
   have := merge_rep_before_res hm [] (fun w => Or.inl ⟨tasksOf w, rfl⟩) pre post n hq
   simpa using this
+
+/-! ### the JSON reporter -/
+
+/-- `json`: whenever no task is left selected / executing (in particular at the end of a run) the `JsonReporter`
+    bookkeeping (`t_results`, `TaskResult.start` / `set_result` / `to_dict`, `complete_run`), fed with the callbacks of
+    the run, produces a document — no `KeyError`, no `TypeError` — whose task list has no duplicate names, lists
+    exactly the tasks that were looked at, each with the result string of its final report (`null` if it has none: a
+    task that was only selected) and with timing iff `execute_task` was reported.  (Validity of `json.dump` is
+    trusted.)  Serial and thread runner; the document is the same whether computed from the observable trace or from
+    the raw event list. -/
+theorem C19_json (inp : RunInput) (hp : inp.runner ≠ .process) (s : Sys) (hr : Reach inp s ∨ PReach inp s)
+    (hrun : ∀ n, stOf s n ≠ .run) :
+    ∃ doc, jsonOf (trace inp s) = some doc ∧ (doc.map (·.name)).Nodup ∧
+      (∀ n, (∃ o ∈ doc, o.name = n) ↔ s.events.any (Ev.isGetStatusOf n) = true) ∧
+      (∀ o ∈ doc, o.result = (s.events.find? (Ev.isTerminalOf o.name)).bind resOf ∧
+                  o.timed = s.events.any (Ev.isExecOf o.name)) := by
+  have h : Inv19 inp s := hr.elim reach_inv19 preach_inv19
+  rw [jsonOf_trace]
+  exact json_ok s.events h.ord (all_reported h hp hrun)
+
+/-- … in particular each processed task is listed exactly once, with its true result: for every final report `e` of
+    a task `n` in the trace, exactly one entry of the document is named `n`, and its result is the result string of
+    `e` (`success` / `fail` / `up-to-date` / `ignore`) -/
+theorem C19_json_lists_each_processed_task_once (inp : RunInput) (hp : inp.runner ≠ .process) (s : Sys)
+    (hr : Reach inp s ∨ PReach inp s) (hrun : ∀ n, stOf s n ≠ .run) (pre post : List Ev) (e : Ev) (n : Name)
+    (hsplit : s.events = pre ++ e :: post) (ht : Ev.isTerminalOf n e = true) :
+    ∃ doc, jsonOf (trace inp s) = some doc ∧ (doc.filter fun o => o.name == n).length = 1 ∧
+      ∀ o ∈ doc, o.name = n → o.result = resOf e := by
+  have h : Inv19 inp s := hr.elim reach_inv19 preach_inv19
+  rw [jsonOf_trace]
+  exact json_lists_final_report s.events h.ord (all_reported h hp hrun) pre post e n hsplit ht
 
 /-! ### non-vacuity -/
 
@@ -139,6 +177,13 @@ example : ∃ s, PReach exMixed s ∧ s.events.contains Ev.complete = true ∧
 example : ∃ s, Reach { exMixed with runner := .serial, numProc := 0, sel := [1, 0] } s ∧
     s.events.contains Ev.complete = true ∧ exitCode s = 1 :=
   ⟨_, autoRun_reach (by decide) false false 400 _ Reach.init, by decide +kernel⟩
+
+/-- the hypothesis of `C19_json` holds at the end of that run, and the document lists the four tasks with their
+    results (task `3` failed before being started: no timing) -/
+example : ∃ s, PReach exMixed s ∧ (∀ n, n < 6 → stOf s n ≠ .run) ∧
+    jsonOf (trace exMixed s) = some [⟨1, some .fail, true⟩, ⟨2, some .fail, true⟩, ⟨0, some .success, true⟩,
+      ⟨3, some .fail, false⟩] :=
+  ⟨_, autoRun_preach (by decide) false true 400 _ PReach.init, by decide +kernel, by decide +kernel⟩
 
 /-- a real interleaving of two producers: the queue hypothesis of `C19_forwarded_execute_before_result` is satisfiable
     with the second worker's messages between the first one's -/
